@@ -148,6 +148,7 @@ def e2e(argv_tail, files: dict[str, list[dict]], want_files=(), keep_dir=False, 
         paths = []
         for name, evs in files.items():
             p = os.path.join(tmp, name)
+            os.makedirs(os.path.dirname(p), exist_ok=True)     # names may place files in per-rank sub-directories
             write_trace(p, evs)
             paths.append(p)
         out = os.path.join(tmp, out_name)
